@@ -156,6 +156,7 @@ def run(res):
             if f[1] != "ok" or f[2] != "ok":
                 P.fail(res, "avra-rs binary", desc, "%s = Hex.write(image the library builds), decoding to exactly that image" % rel,
                        "model-equal=%s reader-accepts=%s" % (f[1], f[2]), "file-content")
+    random_programs(res, vh, exe, binary, env, work)
     shutil.rmtree(work, ignore_errors=True)
     res.oblige("every output file of the binary = Model/Hex.write of the library's image and satisfies HexReader.holds_C07 (%d files)" % len(hexjobs), True, "")
     res.extra.setdefault("distribution", {}).update(cases=len(cases), files_compared=len(hexjobs),
@@ -169,8 +170,64 @@ def run(res):
                   "the binary is built from /repo with HOME redirected to build/home (build.rs copies includes/ there)"]
 
 
+def random_programs(res, vh, exe, binary, env, work):
+    """the tool = the library, on general programs (devices, messages, macros, conditionals, data in all memories): exit status,
+    the files (through the reader) and - with -v - the printed messages in order followed by the report of usage and capacity"""
+    import random
+    import re
+    from . import proggen
+    rng = random.Random(res.seed + 18)
+    texts = []
+    for _ in range(40 if res.tier == "quick" else 2000):
+        texts.append(proggen.text_of(proggen.program(rng, size=rng.choice([4, 10, 20]), faults=rng.random() < 0.2)))
+    texts = list(dict.fromkeys(texts))
+    lib = [progrun.parse_obs(r[1]) for r in progrun.run_texts(vh, exe, texts)]
+    hexdir = os.path.join(work, "hexcmp2")
+    os.makedirs(hexdir)
+    jobs = []
+    for n, (text, l) in enumerate(zip(texts, lib)):
+        d = os.path.join(work, "rnd%d" % n)
+        os.makedirs(d)
+        src = os.path.join(d, "p.asm")
+        open(src, "w", newline="").write(text)
+        p = subprocess.run([binary, "-s", src, "-v"], cwd=d, env=env, stdout=subprocess.PIPE, stderr=subprocess.STDOUT, text=True, timeout=60)
+        res.count(("random", text), nontrivial=True)
+        desc = "random program, -v"
+        if l["kind"] not in ("OK", "ERR"):
+            continue
+        if (l["kind"] == "OK") != (p.returncode == 0):
+            P.fail(res, "avra-rs binary", text, "exit status %s (the library: %s)" % ("0" if l["kind"] == "OK" else "non-zero", l["kind"]),
+                   "exit %d; %s" % (p.returncode, p.stdout[-120:]), "random-exit")
+            continue
+        if l["kind"] != "OK":
+            if [f for f in os.listdir(d) if f != "p.asm"]:
+                P.fail(res, "avra-rs binary", text, "no output file when the build fails", str(os.listdir(d)), "random-file-on-failure")
+            continue
+        lines = [ln for ln in p.stdout.splitlines() if not ln.startswith("Nothing to write")]
+        want = list(l["msgs"]) + ["Flash: %d(%d) words(bytes) of %d(%d)" % (len(l["code"]) // 4, len(l["code"]) // 2, l["flash"], 2 * l["flash"]),
+                                  "EEPROM: %d bytes of %d" % (len(l["eeprom"]) // 2, l["eesize"]), "RAM: %d bytes of %d" % (l["fill"], l["ram"])]
+        got = [re.sub(r", [0-9.a-zA-Z]+%$", "", ln) for ln in lines]
+        if got != want:
+            P.fail(res, "avra-rs binary -v", text, "printed: %s" % want, "printed: %s" % got, "random-report")
+        for k, fn in (("code", "p.hex"), ("eeprom", "p.eep.hex")):
+            img = bytes.fromhex(l[k])
+            if bool(img) != os.path.exists(os.path.join(d, fn)):
+                P.fail(res, "avra-rs binary", text, "%s %s" % (fn, "written" if img else "not written"), "the opposite", "random-file-set")
+            elif img:
+                i = len(jobs)
+                open(os.path.join(hexdir, "%d.bin" % i), "wb").write(img)
+                shutil.copy(os.path.join(d, fn), os.path.join(hexdir, "%d.hex" % i))
+                jobs.append((text, fn))
+    if jobs:
+        for (text, fn), ln in zip(jobs, C.model(exe, ["hex", hexdir, str(len(jobs))]).splitlines()):
+            f = ln.split()
+            if f[1] != "ok" or f[2] != "ok":
+                P.fail(res, "avra-rs binary", text, "%s = Hex.write(image the library builds)" % fn, "model-equal=%s reader-accepts=%s" % (f[1], f[2]), "random-file-content")
+    res.extra.setdefault("distribution", {})["random_programs"] = len(texts)
+
+
 match_known = P.match_known
 
 
 def replay(path):
-    return P.replay_text(PROP, path, lambda vh, exe, i: None)
+    return P.replay_by_rerun(PROP, path)
